@@ -127,22 +127,42 @@ def ww_body(O):
     return O.body(WRITE_WITH)
 
 
+def layout_map_writers(ctx, chk, rid):
+    """shared by C05, C10 and C12"""
+    O, P = ctx.O, ctx.P
+    # B05.3d who may write the layout's maps (a freed extent must not reach the reusable-hole maps by another door)
+    writers = {
+        "start_to_hole": {"rawdb::layout::Layout::insert_hole", "rawdb::layout::Layout::remove_hole"},
+        "hole_to_starts": {"rawdb::layout::Layout::insert_hole", "rawdb::layout::Layout::remove_hole"},
+        "pending_holes": {"rawdb::layout::Layout::remove_region", "rawdb::layout::Layout::promote_pending_holes"},
+        "start_to_reserved": {"rawdb::layout::Layout::reserve", "rawdb::layout::Layout::take_reserved"},
+        "start_to_region": {"rawdb::layout::Layout::insert_region", "rawdb::layout::Layout::remove_region"},
+    }
+    ctor = LAYOUT_FROM
+    for field, allowed in sorted(writers.items()):
+        offenders = []
+        n = 0
+        for bid, body in sorted(P.bodies.items()):
+            if body.krate != "rawdb":
+                continue
+            if anchors.mut_field(body, field) and "rawdb::layout::Layout" in " ".join(l["ty"] for l in body.locals[:body.arg_count + 2]):
+                n += 1
+                root = body.root
+                if root not in allowed and bid not in allowed and root != ctor and not root.endswith("Default>::default") \
+                        and not O.private_part_of(root, allowed | {ctor}):
+                    offenders.append(bid)
+        chk.oblige("%s only %s write Layout.%s [%d writer bodies]" % (rid, sorted(a.split("::")[-1] for a in allowed), field, n),
+                   not offenders and n >= 1, detail={"offenders": offenders}, key="%s|field-writers|%s" % (rid, field),
+                   msg="the layout's maps are changed only through their designated functions (a freed extent must go "
+                       "through pending_holes and promotion)")
+
+
 def occupied_maps_consulted(ctx, chk, rid, fields):
     """every exit of Layout::is_last_anything that can answer `true` has consulted each of the given maps, and
     Layout::len reads them (shared by C05 / C10 / C12)."""
     O, P = ctx.O, ctx.P
     ila = O.body("rawdb::layout::Layout::is_last_anything")
-    may_true = []
-    for b in ila.reachable():
-        blk = ila.blocks[b]
-        for st in blk["stmts"]:
-            if st[0] == "assign" and st[1]["l"] == 0 and not st[1]["p"]:
-                v = O.const_of(ila, st[2]["ops"][0]) if st[2]["k"] == "use" and st[2].get("ops") else None
-                if v != "0":
-                    may_true.append(b)
-        t = blk["term"]
-        if t["k"] == "call" and t["dest"]["l"] == 0 and not t["dest"]["p"]:
-            may_true.append(b)
+    may_true = _may_true_blocks(O, ila)
     for field in fields:
         readers_blocks = _field_read_blocks_deep(ctx, ila, field)
         inn = O.seen_before(ila, readers_blocks)
@@ -155,6 +175,37 @@ def occupied_maps_consulted(ctx, chk, rid, fields):
         chk.oblige("%s Layout::len accounts for %s" % (rid, field), ln in _field_readers(ctx, "rawdb::layout::Layout", field),
                    key="%s|len|ignores-%s" % (rid, field),
                    msg="the end of the allocated area must cover every kind of occupied extent")
+
+
+def _may_true_blocks(O, body):
+    """blocks that give the function's bool result a value that may be `true`: assignments to the return place, and -
+    when the result is produced by a std combinator whose closure was spliced into the body (`opt.is_some_and(|..| ..)`)
+    - the assignments to that closure's return place instead of the combinator call itself."""
+    R = {0}
+    derived = set()
+    changed = True
+    while changed:
+        changed = False
+        for b, t in body.calls():
+            if not t["dest"]["p"] and t["dest"]["l"] in R and t.get("spliced") and b not in derived:
+                derived.add(b)
+                for a in t["args"][-len(t["spliced"]):]:
+                    pl = op_place(a)
+                    if pl is not None and pl["l"] not in R:
+                        R.add(pl["l"])
+                        changed = True
+    out = []
+    for b in body.reachable():
+        blk = body.blocks[b]
+        for st in blk["stmts"]:
+            if st[0] == "assign" and st[1]["l"] in R and not st[1]["p"]:
+                v = O.const_of(body, st[2]["ops"][0]) if st[2]["k"] == "use" and st[2].get("ops") else None
+                if v != "0":
+                    out.append(b)
+        t = blk["term"]
+        if t["k"] == "call" and not t["dest"]["p"] and t["dest"]["l"] in R and b not in derived:
+            out.append(b)
+    return out
 
 
 def _field_read_blocks_deep(ctx, body, field):
@@ -189,17 +240,7 @@ def pending_holes_occupied(ctx, chk, rid):
     ila = O.body("rawdb::layout::Layout::is_last_anything")
     readers_blocks = _field_read_blocks(ila, "pending_holes")
     inn = O.seen_before(ila, readers_blocks)
-    may_true = []
-    for b in ila.reachable():
-        blk = ila.blocks[b]
-        for st in blk["stmts"]:
-            if st[0] == "assign" and st[1]["l"] == 0 and not st[1]["p"]:
-                v = O.const_of(ila, st[2]["ops"][0]) if st[2]["k"] == "use" and st[2].get("ops") else None
-                if v != "0":
-                    may_true.append(b)
-        t = blk["term"]
-        if t["k"] == "call" and t["dest"]["l"] == 0 and not t["dest"]["p"]:
-            may_true.append(b)
+    may_true = _may_true_blocks(O, ila)
     bad = [b for b in may_true if not (inn[b] or b in readers_blocks)]
     chk.oblige(rid + "b Layout::is_last_anything: every exit that can answer `true` has consulted pending_holes "
                "[%d such exits]" % len(may_true), bool(may_true) and not bad,
@@ -271,30 +312,7 @@ def run(ctx, chk):
         ok = "rawdb::layout::Layout::insert_hole" not in r
         chk.oblige("B05.3c %s does not reach insert_hole (freed extent goes to pending_holes)" % f, ok,
                    key="B05.3c|reach|%s" % f, msg="a freed extent must not become reusable before the next flush")
-    # B05.3d who may write the layout's maps (a freed extent must not reach the reusable-hole maps by another door)
-    writers = {
-        "start_to_hole": {"rawdb::layout::Layout::insert_hole", "rawdb::layout::Layout::remove_hole"},
-        "hole_to_starts": {"rawdb::layout::Layout::insert_hole", "rawdb::layout::Layout::remove_hole"},
-        "pending_holes": {"rawdb::layout::Layout::remove_region", "rawdb::layout::Layout::promote_pending_holes"},
-        "start_to_reserved": {"rawdb::layout::Layout::reserve", "rawdb::layout::Layout::take_reserved"},
-        "start_to_region": {"rawdb::layout::Layout::insert_region", "rawdb::layout::Layout::remove_region"},
-    }
-    ctor = LAYOUT_FROM
-    for field, allowed in sorted(writers.items()):
-        offenders = []
-        n = 0
-        for bid, body in sorted(P.bodies.items()):
-            if body.krate != "rawdb":
-                continue
-            if anchors.mut_field(body, field) and "rawdb::layout::Layout" in " ".join(l["ty"] for l in body.locals[:body.arg_count + 2]):
-                n += 1
-                root = body.root
-                if root not in allowed and bid not in allowed and root != ctor and not root.endswith("Default>::default"):
-                    offenders.append(bid)
-        chk.oblige("B05.3d only %s write Layout.%s [%d writer bodies]" % (sorted(a.split("::")[-1] for a in allowed), field, n),
-                   not offenders and n >= 1, detail={"offenders": offenders}, key="B05.3d|field-writers|%s" % field,
-                   msg="the layout's maps are changed only through their designated functions (a freed extent must go "
-                       "through pending_holes and promotion)")
+    layout_map_writers(ctx, chk, "B05.3d")
     pending_holes_occupied(ctx, chk, "B05.7")
     # B05.8 open never fails because of what a slot contains (a crash may leave any mix of old and new slot pages,
     # e.g. two slots with the same name after remove + rename): once the slot loop of Regions::fill has started, no
